@@ -1,33 +1,225 @@
 package main
 
-// Symbolic byte slices (lazy byte arrays). Filled in for C10/C12.
+// Symbolic byte slices over lazy byte memories.
+//
+// A ByteMem is a persistent list of writes over a base array: single stores and range copies from a
+// snapshot of another memory. Reads build ite-terms over that list (read-over-write), so copy/append with
+// symbolic lengths need neither quantifiers nor lambdas.
+
+import (
+	"fmt"
+)
+
+type memWrite struct {
+	prev *memWrite
+	// store
+	idx, val *Term
+	// range copy: dst[dOff .. dOff+n) = src[sOff .. sOff+n)
+	isCopy     bool
+	dOff, sOff *Term
+	n          *Term
+	src        *memWrite // snapshot of the source memory's write list
+	srcBase    *Term
+	depth      int
+}
+
+func (m *ByteMem) clone() *ByteMem { return &ByteMem{ID: m.ID, Arr: m.Arr, W: m.W} }
+
+func (e *Exec) newByteMem(zero bool) *ByteMem {
+	id := e.newID()
+	var base *Term
+	if zero {
+		base = e.tt.mk("(as const (Array (_ BitVec 64) (_ BitVec 8)))", SArr, e.tt.BV(8, 0))
+	} else {
+		e.nondetN++
+		base = e.tt.Var(fmt.Sprintf("mem!%d", e.nondetN), SArr)
+	}
+	return &ByteMem{ID: id, Arr: base}
+}
+
+// memRead returns the byte at absolute index i (BV64) of memory (base, w).
+func (e *Exec) memRead(base *Term, w *memWrite, i *Term) *Term {
+	tt := e.tt
+	e.memReadDepth++
+	defer func() { e.memReadDepth-- }()
+	if e.memReadDepth > 64 {
+		e.fail(OutBound, "byte memory: copy chain deeper than 64")
+	}
+	// iterative walk building nested ites from the newest write
+	type pend struct {
+		cond *Term
+		val  *Term
+	}
+	var stack []pend
+	cur := w
+	var tail *Term
+	for {
+		if cur == nil {
+			tail = tt.Select(base, i)
+			break
+		}
+		if !cur.isCopy {
+			eq := tt.Eq(cur.idx, i)
+			if b, ok := eq.ConstBool(); ok {
+				if b {
+					tail = cur.val
+					break
+				}
+				cur = cur.prev
+				continue
+			}
+			stack = append(stack, pend{eq, cur.val})
+			cur = cur.prev
+			continue
+		}
+		// range copy
+		in := tt.And(tt.BVCmp("bvule", cur.dOff, i), tt.BVCmp("bvult", i, tt.BVBin("bvadd", cur.dOff, cur.n)))
+		if b, ok := in.ConstBool(); ok {
+			if b {
+				si := tt.BVBin("bvadd", tt.BVBin("bvsub", i, cur.dOff), cur.sOff)
+				tail = e.memRead(cur.srcBase, cur.src, si)
+				break
+			}
+			cur = cur.prev
+			continue
+		}
+		si := tt.BVBin("bvadd", tt.BVBin("bvsub", i, cur.dOff), cur.sOff)
+		stack = append(stack, pend{in, e.memRead(cur.srcBase, cur.src, si)})
+		cur = cur.prev
+	}
+	r := tail
+	for k := len(stack) - 1; k >= 0; k-- {
+		r = tt.Ite(stack[k].cond, stack[k].val, r)
+	}
+	return r
+}
+
+func (e *Exec) memStore(m *ByteMem, i, v *Term) {
+	d := 0
+	if m.W != nil {
+		d = m.W.depth
+	}
+	if d > 4000 {
+		e.fail(OutBound, "byte memory write list too long")
+	}
+	m.W = &memWrite{prev: m.W, idx: i, val: v, depth: d + 1}
+}
+
+func (e *Exec) memCopy(dst *ByteMem, dOff *Term, src *ByteMem, sOff, n *Term) {
+	d := 0
+	if dst.W != nil {
+		d = dst.W.depth
+	}
+	dst.W = &memWrite{prev: dst.W, isCopy: true, dOff: dOff, sOff: sOff, n: n, src: src.W, srcBase: src.Arr, depth: d + 1}
+}
 
 func (e *Exec) makeSymBytes(ln, cp *Term) Value {
-	e.unsupported("symbolic-length []byte not yet supported")
-	return nil
+	m := e.newByteMem(true)
+	return &SymBytes{Mem: m, Off: e.tt.BV(64, 0), Len: ln, Cap: cp}
+}
+
+// BytePtr is a pointer to one element of a symbolic byte slice.
+type BytePtr struct {
+	Mem *ByteMem
+	Idx *Term
 }
 
 func (e *Exec) symBytesElemPtr(x *SymBytes, idx *Term) Value {
-	e.unsupported("symbytes elem ptr")
-	return nil
+	return &BytePtr{Mem: x.Mem, Idx: e.tt.BVBin("bvadd", x.Off, idx)}
+}
+
+func (e *Exec) symBytesGet(x *SymBytes, idx *Term) *Term {
+	return e.memRead(x.Mem.Arr, x.Mem.W, e.tt.BVBin("bvadd", x.Off, idx))
 }
 
 func (e *Exec) sliceSymBytes(g *G, x *SymBytes, lo, hi, max *Term) (Value, bool) {
-	e.unsupported("symbytes slice")
-	return nil, false
+	tt := e.tt
+	if x == nil || x.Nil {
+		x = &SymBytes{Mem: e.newByteMem(true), Off: tt.BV(64, 0), Len: tt.BV(64, 0), Cap: tt.BV(64, 0), Nil: true}
+	}
+	if lo == nil {
+		lo = tt.BV(64, 0)
+	}
+	if hi == nil {
+		hi = x.Len
+	}
+	if max == nil {
+		max = x.Cap
+	}
+	ok := tt.AndN(tt.BVCmp("bvsle", tt.BV(64, 0), lo), tt.BVCmp("bvsle", lo, hi), tt.BVCmp("bvsle", hi, max), tt.BVCmp("bvsle", max, x.Cap))
+	if !e.branch(ok) {
+		e.runtimePanic(g, "slice bounds out of range (bytes)")
+		return nil, false
+	}
+	return &SymBytes{Mem: x.Mem, Off: tt.BVBin("bvadd", x.Off, lo), Len: tt.BVBin("bvsub", hi, lo), Cap: tt.BVBin("bvsub", max, lo), Nil: x.Nil && false}, true
+}
+
+// sliceToSymBytes views a concrete-length byte slice as a symbolic one (copying its contents).
+func (e *Exec) sliceToSymBytes(s Slice) *SymBytes {
+	tt := e.tt
+	m := e.newByteMem(true)
+	for i, v := range s {
+		e.memStore(m, tt.BV(64, uint64(i)), v.(*Term))
+	}
+	return &SymBytes{Mem: m, Off: tt.BV(64, 0), Len: tt.BV(64, uint64(len(s))), Cap: tt.BV(64, uint64(cap(s))), Nil: s == nil}
+}
+
+func (e *Exec) minBV(a, b *Term) *Term {
+	return e.tt.Ite(e.tt.BVCmp("bvslt", a, b), a, b)
+}
+
+// copySymBytes implements copy(d, s) for symbolic byte slices; returns the count (BV64).
+func (e *Exec) copySymBytes(g *G, d, s *SymBytes) Value {
+	tt := e.tt
+	if d == nil || d.Nil || s == nil || s.Nil {
+		return tt.BV(64, 0)
+	}
+	n := e.minBV(d.Len, s.Len)
+	e.memCopy(d.Mem, d.Off, s.Mem, s.Off, n)
+	return n
+}
+
+// copyToSlice implements copy(dst, src) from a symbolic byte slice into a concrete-length slice.
+func (e *Exec) copySymToSlice(g *G, d Slice, s *SymBytes) Value {
+	tt := e.tt
+	if s == nil || s.Nil {
+		return tt.BV(64, 0)
+	}
+	n := e.minBV(tt.BV(64, uint64(len(d))), s.Len)
+	for i := range d {
+		bi := tt.BV(64, uint64(i))
+		in := tt.BVCmp("bvslt", bi, n)
+		d[i] = tt.Ite(in, e.symBytesGet(s, bi), d[i].(*Term))
+	}
+	return n
+}
+
+// copySliceToSym implements copy(dst, src) from a concrete-length slice into a symbolic byte slice.
+func (e *Exec) copySliceToSym(g *G, d *SymBytes, s Slice) Value {
+	tt := e.tt
+	if d == nil || d.Nil {
+		return tt.BV(64, 0)
+	}
+	n := e.minBV(d.Len, tt.BV(64, uint64(len(s))))
+	for i, v := range s {
+		bi := tt.BV(64, uint64(i))
+		in := tt.BVCmp("bvslt", bi, n)
+		idx := tt.BVBin("bvadd", d.Off, bi)
+		old := e.memRead(d.Mem.Arr, d.Mem.W, idx)
+		e.memStore(d.Mem, idx, tt.Ite(in, v.(*Term), old))
+	}
+	return n
 }
 
 func (e *Exec) appendSymBytes(g *G, a, b *SymBytes) Value {
-	e.unsupported("symbytes append")
-	return nil
-}
-
-func (e *Exec) copySymBytes(g *G, d, s *SymBytes) Value {
-	e.unsupported("symbytes copy")
-	return nil
-}
-
-func (e *Exec) sliceToSymBytes(s Slice) *SymBytes {
-	e.unsupported("slice to symbytes")
-	return nil
+	tt := e.tt
+	if b == nil || b.Nil {
+		return a
+	}
+	// always reallocate: capacity growth is not observable through the properties decided here
+	nl := tt.BVBin("bvadd", a.Len, b.Len)
+	m := e.newByteMem(true)
+	e.memCopy(m, tt.BV(64, 0), a.Mem, a.Off, a.Len)
+	e.memCopy(m, a.Len, b.Mem, b.Off, b.Len)
+	return &SymBytes{Mem: m, Off: tt.BV(64, 0), Len: nl, Cap: nl}
 }
